@@ -2,7 +2,10 @@
 package main
 
 import (
+	"bytes"
 	"fmt"
+	simplefixgo "github.com/b2broker/simplefix-go"
+	"github.com/b2broker/simplefix-go/session"
 	"strconv"
 	"strings"
 	"sync"
@@ -39,7 +42,21 @@ func run(c *vk.Ctx, can *rig.Canary, sc scen, idx int) {
 	}
 	replay := map[string]interface{}{"scenario": desc, "index": idx, "seed": c.Seed}
 	N := time.Duration(sc.n) * time.Second
-	f, err := rig.StartFull(rig.FullCfg{Role: sc.role, HeartBtInt: sc.n, BufSize: 10, Notify: true, Label: fmt.Sprintf("c08-%d", idx)})
+	cfg := rig.FullCfg{Role: sc.role, HeartBtInt: sc.n, BufSize: 10, Notify: true, Label: fmt.Sprintf("c08-%d", idx)}
+	refuse := func(h *simplefixgo.DefaultHandler, s *session.Session) {
+		// an application filter that refuses the messages marked for it: such a send transmits nothing
+		h.HandleOutgoing(simplefixgo.AllMsgTypes, func(m simplefixgo.SendingMessage) bool {
+			b, _ := m.ToBytes()
+			return !bytes.Contains(b, []byte("262=refuse-me"))
+		})
+	}
+	switch sc.pattern {
+	case "refused-sends-filter-registered-before-logon":
+		cfg.OnSession = refuse
+	case "refused-sends-filter-registered-after-logon":
+		cfg.AfterRun = nil
+	}
+	f, err := rig.StartFull(cfg)
 	if err != nil {
 		c.Inconclusive("rig: " + err.Error())
 		return
@@ -176,6 +193,21 @@ func run(c *vk.Ctx, can *rig.Canary, sc scen, idx int) {
 			}
 			time.Sleep(N*2 + N/3)
 		}
+	case "refused-sends-filter-registered-before-logon", "refused-sends-filter-registered-after-logon":
+		// the application keeps trying to send something its own filter refuses, every 0.3 N: nothing of it is
+		// transmitted, so the heartbeats must go on as if the application were idle
+		if sc.pattern != "refused-sends-filter-registered-before-logon" {
+			refuse(l.H, l.S)
+		}
+		for time.Now().Before(end) {
+			err := l.S.Send(fixgen.CreateMarketDataRequestReject("refuse-me"))
+			if err == nil {
+				c.Inconclusive("the filter did not refuse: " + desc)
+				return
+			}
+			c.Count("refused_send_attempts", 1)
+			time.Sleep(N * 3 / 10)
+		}
 	case "half-period-sends":
 		for time.Now().Before(end) {
 			sendAt(N / 2)
@@ -248,7 +280,7 @@ func run(c *vk.Ctx, can *rig.Canary, sc scen, idx int) {
 			maxGap = gap
 		}
 		if gap > bound {
-			c.Violate(fmt.Sprintf("C08/silent-too-long/%s/N=%d/%s", sc.role, sc.n, pat), fmt.Sprintf("%s: %v passed between outbound message #%d and #%d (35=%s); bound N+N/10+slack = %v (measured scheduler oversleep %v)", desc, gap.Round(time.Millisecond), i-1, i, fr.Type, bound, jit), replay)
+			c.Violate(silentKey(sc, pat), fmt.Sprintf("%s: %v passed between outbound message #%d and #%d (35=%s); bound N+N/10+slack = %v (measured scheduler oversleep %v)", desc, gap.Round(time.Millisecond), i-1, i, fr.Type, bound, jit), replay)
 		}
 		if fr.Type == "0" {
 			if _, solicited := fixref.Get(fr.Fields, rig.TTestReqID); !solicited {
@@ -282,7 +314,7 @@ func run(c *vk.Ctx, can *rig.Canary, sc scen, idx int) {
 	}
 	if !prev.IsZero() {
 		if gap := tEnd.Sub(prev); gap > bound {
-			c.Violate(fmt.Sprintf("C08/silent-too-long/%s/N=%d/%s", sc.role, sc.n, pat), fmt.Sprintf("%s: nothing was transmitted during the last %v of the observation; bound %v", desc, gap.Round(time.Millisecond), bound), replay)
+			c.Violate(silentKey(sc, pat), fmt.Sprintf("%s: nothing was transmitted during the last %v of the observation; bound %v", desc, gap.Round(time.Millisecond), bound), replay)
 		}
 	}
 	c.Eval(vk.Hash64([]byte(desc)), hb > 0)
@@ -299,7 +331,7 @@ func run(c *vk.Ctx, can *rig.Canary, sc scen, idx int) {
 
 func main() {
 	c := vk.Init("C08")
-	c.Rule("full-stack sessions, both roles, negotiated N in {1,2,3} (quick) + {5,20} (thorough); the peer keeps the session alive with a Heartbeat every 0.8 N; application send patterns relative to the previous outbound message: none (idle for many periods), one send N-0.15 s / N / N+0.15 s / N/2 after it, bursts of 20 followed by 2.3 N of idleness, two sends 0.09 N apart followed by 1.6 N of idleness, a retransmission requested by the peer N/2 after it, an application send through the handler (own header) N/2 after it; a peer that sends nothing on its own and answers each of the session's TestRequests only after 3/4 of the probe period (the session's heartbeat falls due while its own TestRequest is pending); plus sessions that log on a second time on the same connection after a Logout exchange (acceptor: first interval 3 then 1, 1 then 2, 2 then 2; initiator: same interval), observed from the second logon with the patterns idle / N+0.15 s / N/2. Oracle on write timestamps at the peer end: every gap between consecutive outbound messages (and up to the end of the observation) <= N + N/10 + slack, slack = 100 ms + 3 x measured scheduler oversleep; every Heartbeat without TestReqID follows the previous outbound message by >= N - 20 ms. distinct = (role, N, pattern); non-trivial = at least one unsolicited Heartbeat observed")
+	c.Rule("full-stack sessions, both roles, negotiated N in {1,2,3} (quick) + {5,20} (thorough); the peer keeps the session alive with a Heartbeat every 0.8 N; application send patterns relative to the previous outbound message: none (idle for many periods), one send N-0.15 s / N / N+0.15 s / N/2 after it, bursts of 20 followed by 2.3 N of idleness, two sends 0.09 N apart followed by 1.6 N of idleness, a retransmission requested by the peer N/2 after it, an application send through the handler (own header) N/2 after it; send attempts every 0.3 N that an application filter refuses (filter registered before logon: judged like any other pattern; registered after logon: a recorded finding with its own key); a peer that sends nothing on its own and answers each of the session's TestRequests only after 3/4 of the probe period (the session's heartbeat falls due while its own TestRequest is pending); plus sessions that log on a second time on the same connection after a Logout exchange (acceptor: first interval 3 then 1, 1 then 2, 2 then 2; initiator: same interval), observed from the second logon with the patterns idle / N+0.15 s / N/2. Oracle on write timestamps at the peer end: every gap between consecutive outbound messages (and up to the end of the observation) <= N + N/10 + slack, slack = 100 ms + 3 x measured scheduler oversleep; every Heartbeat without TestReqID follows the previous outbound message by >= N - 20 ms. distinct = (role, N, pattern); non-trivial = at least one unsolicited Heartbeat observed")
 	c.Assume("a run whose canary measured more than 250 ms oversleep is inconclusive")
 	can := rig.StartCanary()
 	defer can.Stop()
@@ -312,7 +344,7 @@ func main() {
 	var scs []scen
 	for _, role := range []rig.Role{rig.Acceptor, rig.Initiator} {
 		for _, n := range ns {
-			for _, p := range []string{"idle", "send-just-before", "send-at-deadline", "send-just-after", "bursts-then-idle", "half-period-sends", "pair-just-under-a-tenth-apart", "resend-replay-mid-period", "handler-send-mid-period", "peer-answers-testrequests-late"} {
+			for _, p := range []string{"idle", "send-just-before", "send-at-deadline", "send-just-after", "bursts-then-idle", "half-period-sends", "pair-just-under-a-tenth-apart", "resend-replay-mid-period", "handler-send-mid-period", "peer-answers-testrequests-late", "refused-sends-filter-registered-before-logon", "refused-sends-filter-registered-after-logon"} {
 				scs = append(scs, scen{role, n, p, periods[n], 0})
 			}
 		}
@@ -339,6 +371,15 @@ func main() {
 	wg.Wait()
 	c.Set("max_scheduler_oversleep_ms", float64(can.Max())/1e6)
 	c.Finish()
+}
+
+// silentKey classifies a too-long silence. One history has a key of its own (it is a recorded finding, see
+// KNOWN_FINDINGS.txt): send attempts refused by an outgoing handler that runs AFTER the session's timer hook.
+func silentKey(sc scen, pat string) string {
+	if sc.pattern == "refused-sends-filter-registered-after-logon" {
+		return "C08/silent-while-refused-send-attempts-restart-the-heartbeat-timer/refusing-handler-registered-after-logon"
+	}
+	return fmt.Sprintf("C08/silent-too-long/%s/N=%d/%s", sc.role, sc.n, pat)
 }
 
 func trace(frames []rig.Frame, i int) string {
